@@ -38,6 +38,8 @@ PLAN = [
     ("runave", 2, 10, 10, 20),
     ("alb", 2, 10, 10, 20),
     ("opes", 4, 30, 12, 24),
+    ("pabf", 2, 16, 10, 24),
+    ("mts", 6, 60, 12, 30),
 ]
 
 
@@ -47,6 +49,9 @@ def signature(c, f):
     kind:family+tags (collapse == "all") or kind:family+tags:when (collapse == "obs")."""
     st = list(c.get("sigtags") or [])
     col = c.get("collapse")
+    if c["fam"] == "opes" and f["sig"].startswith("run-boundary:"):
+        # no state file involved: the restart schedule does not matter
+        return "run-boundary:opes:" + f["sig"].split(":")[-1]
     if c["fam"] == "opes":
         # the OPES state is the snapshot taken at the last step on the restart schedule: only stops on that
         # schedule (and after the first step of the run) can resume exactly
@@ -56,6 +61,13 @@ def signature(c, f):
             col = "all"
         else:
             col = None
+    if c["fam"] == "mts" and c.get("mts_extended") and f.get("K") is not None:
+        # an extended-Lagrangian variable with timeStepFactor n in a job that starts between two multiples of n:
+        # a state written before the variable was first computed holds an extended coordinate that was never set
+        sf, it0 = c["sleep_factor"], c.get("it0", 0)
+        if all((it0 + j) % sf != 0 for j in range(f["K"] + 1)):
+            st.append("extended+saved-before-first-update")
+            col = "all"
     fam = c["fam"] + ("".join("+" + t for t in st))
     parts = f["sig"].split(":")          # engine signatures are <kind>:<fam>:<rest...>
     if col == "all":
@@ -78,6 +90,13 @@ def gen_cases(r, quick, only=None):
             c["Ks"] = list(range(T)) if quick or fam in ("alb", "opes") else sorted(set(r.sample(range(T), 14) + [0, T - 1]))
             c["fmts"] = ["text", "binary"]
             c.setdefault("sigtags", [])
+            # the restart file the module writes by itself during step K (colvarsRestartFrequency), and a run boundary
+            # in the same session after step K (nothing reloaded); their own random stream: the cases stay what they were
+            r2 = V.rng("C03-extra-" + c["id"])
+            ne = 3 if quick else 4
+            if not (c.get("needs_prefix") or c.get("prefix_per_run")):
+                c["auto_Ks"] = sorted(r2.sample(range(1, T), ne))
+            c["boundary_Ks"] = sorted(r2.sample(range(T), ne))
             cases.append(c)
     return cases
 
